@@ -40,10 +40,11 @@ const (
 	ocSingle               // one-element literal
 	ocBuilt                // assembled locally, order unknown (site G)
 	ocSBuilt               // assembled by a sorted-producing operation (site G)
+	ocDesc                 // group G sorted in DESCENDING order
 )
 
 func (k ocKind) String() string {
-	return [...]string{"raw", "sorted", "canon", "computable", "empty", "single", "built", "sorted-built"}[k]
+	return [...]string{"raw", "sorted", "canon", "computable", "empty", "single", "built", "sorted-built", "descending"}[k]
 }
 
 type OC struct {
@@ -105,13 +106,31 @@ func (s ClassSet) equal(t ClassSet) bool {
 	return true
 }
 
+// hasRaw: some class is certainly not ascending: the caller's order, or a
+// descending sort.
 func (s ClassSet) hasRaw() (OC, bool) {
 	for c := range s {
-		if c.K == ocRaw {
+		if c.K == ocRaw || c.K == ocDesc {
 			return c, true
 		}
 	}
 	return OC{}, false
+}
+
+// descOf maps every class to what a descending in-place sort makes of it.
+func descOf(s ClassSet, site string) ClassSet {
+	out := ClassSet{}
+	for c := range s {
+		switch c.K {
+		case ocEmpty, ocSingle:
+			out[c] = true
+		case ocRaw, ocSorted, ocDesc:
+			out[OC{ocDesc, c.G}] = true
+		default:
+			out[OC{ocDesc, site}] = true
+		}
+	}
+	return out
 }
 
 // nonEmpty drops the classes of arrays without meaningful order (no elements
@@ -142,7 +161,7 @@ func sortedOf(s ClassSet, site string) ClassSet {
 	out := ClassSet{}
 	for c := range s {
 		switch c.K {
-		case ocRaw:
+		case ocRaw, ocDesc:
 			out[OC{ocSorted, c.G}] = true
 		case ocBuilt:
 			out[OC{ocSBuilt, c.G}] = true
@@ -2217,6 +2236,52 @@ func ascendingCmp(f *ssa.Function) bool {
 	return v < 0
 }
 
+// descendingCmp recognises a three-way comparator that orders descending
+// (a > b -> -1): the mirror image of ascendingCmp.
+func descendingCmp(f *ssa.Function) bool {
+	if f == nil || len(f.Params) != 2 || len(f.Blocks) == 0 {
+		return false
+	}
+	b0 := f.Blocks[0]
+	if len(b0.Instrs) == 0 {
+		return false
+	}
+	iff, ok := b0.Instrs[len(b0.Instrs)-1].(*ssa.If)
+	if !ok {
+		return false
+	}
+	bo, ok := iff.Cond.(*ssa.BinOp)
+	if !ok {
+		return false
+	}
+	var less bool // the test is a < b
+	switch {
+	case bo.Op == token.LSS && bo.X == f.Params[0] && bo.Y == f.Params[1], bo.Op == token.GTR && bo.X == f.Params[1] && bo.Y == f.Params[0]:
+		less = true
+	case bo.Op == token.GTR && bo.X == f.Params[0] && bo.Y == f.Params[1], bo.Op == token.LSS && bo.X == f.Params[1] && bo.Y == f.Params[0]:
+		less = false
+	default:
+		return false
+	}
+	tb := b0.Succs[0]
+	if len(tb.Instrs) == 0 {
+		return false
+	}
+	r, ok := tb.Instrs[len(tb.Instrs)-1].(*ssa.Return)
+	if !ok || len(r.Results) != 1 {
+		return false
+	}
+	c, ok := r.Results[0].(*ssa.Const)
+	if !ok || c.Value == nil {
+		return false
+	}
+	v := c.Int64()
+	if less {
+		return v > 0 // a < b -> +1: descending
+	}
+	return v < 0 // a > b -> -1: descending
+}
+
 func (it *oInterp) external(site ssa.Instruction, cc *ssa.CallCommon, sc *ssa.Function, args []*OV, st *OState) *OV {
 	pkg, name := "", sc.Name()
 	if sc.Pkg != nil {
@@ -2270,6 +2335,8 @@ func (it *oInterp) external(site ssa.Instruction, cc *ssa.CallCommon, sc *ssa.Fu
 		case "SortFunc", "SortStableFunc":
 			if len(args) == 2 && ascendingCmp(args[1].Fn) {
 				st.setClass(args[0], sortedOf(st.classOf(args[0]), it.site(site)))
+			} else if len(args) == 2 && descendingCmp(args[1].Fn) {
+				st.setClass(args[0], descOf(st.classOf(args[0]), it.site(site)))
 			} else {
 				unknownOrder(args[0])
 			}
